@@ -134,7 +134,9 @@ one message to its own actor: handler thread `workers + nextH` runs one complete
 def recvAll (g : G) (workers : Nat) (flagged : List Nat) (nextH : Nat) : Nat → G × Nat
   | 0 => (g, nextH)
   | fuel + 1 =>
-    let g' := step g .recv
+    -- dequeue one item and, if it is a message, start its handler (two `recv` phases: the engine
+    -- runs the actor task to quiescence, so nothing can land in between)
+    let g' := step (step g .recv) .recv
     if g'.sh.handled.length == g.sh.handled.length then (g', nextH)
     else
       match g'.sh.handled.getLast? with
